@@ -15,6 +15,7 @@ package server
 // oracle does not depend on the server's own bookkeeping.
 
 import (
+	"os"
 	"io"
 	"log/slog"
 	"net/netip"
@@ -576,6 +577,16 @@ func (r *h01Run) verify() *verifkit.Failure {
 		rx, eof, _ := p.sess.snapshot()
 		if eof {
 			return r.fail("session-lost", "peer %d: the server closed the session", i)
+		}
+		if os.Getenv("VERIF_C01_TRACE") != "" {
+			for k := p.view.seen; k < len(rx); k++ {
+				if rx[k].Type() == bgp.BGP_MSG_UPDATE {
+					if pm, err := bgp.ParseBGPMessage(rx[k].Raw, rsRxOpt(p.spec)); err == nil {
+						u := pm.Body.(*bgp.BGPUpdate)
+						r.logf("   -> peer %d gets UPDATE withdrawn=%v nlri=%v tag=%#x", i, u.WithdrawnRoutes, u.NLRI, h01Tag(u.PathAttributes))
+					}
+				}
+			}
 		}
 		p.view.feed(rx, rsRxOpt(p.spec))
 		if len(p.view.errs) > 0 {
